@@ -135,4 +135,156 @@ theorem refund_paid_counterexample : ¬ FullStatementRefundReachesEscrow := by
   have := h toyCfg _ addr2 [0x22] 100 102 toy_codecId toy_rawOK hr (by decide) (by decide)
   exact absurd this (by decide)
 
+/-! ## record stake = applied + added − refunded, over histories -/
+
+/-- What an operation contributes to the ledger of (registry `d`, id `j`): `+stake` for an accepted
+    application of `j` in `d`, `+delta` for an accepted add-stake, `−money` for an accepted refund. -/
+def txDelta (cfg : Cfg) (st : State) (tx : Tx) (d : DbId) (j : Bytes) : Int :=
+  if (runTx cfg st tx).1 = "ok" ∧ d = txDb cfg st tx ∧ j = txTarget tx then
+    match tx with
+    | .apply _ _ _ stake _ _ _ => stake
+    | .add _ _ delta => delta
+    | .refund _ id amount => match getMiner cfg st id with
+      | some m => - (refundMoney m amount : Int)
+      | none => 0
+    | _ => 0
+  else 0
+
+/-- applied + added − refunded for (d, j) along a history. -/
+def ledger (cfg : Cfg) : State → List Op → DbId → Bytes → Int
+  | _, [], _, _ => 0
+  | st, .tx t :: ops, d, j => txDelta cfg st t d j + ledger cfg (runTx cfg st t).2 ops d j
+  | st, .endBlock n :: ops, d, j => ledger cfg (endBlock st n) ops d j
+
+theorem stake_accounting_step (cfg : Cfg) (U : List Bytes) (st : State) (tx : Tx) (hs : SepU cfg U) (hinv : Inv cfg U st)
+    (hside : TxSide cfg U st tx) (d : DbId) (j : Bytes) (hj : j ∈ U) :
+    (stakeAt cfg (runTx cfg st tx).2 d j : Int) = stakeAt cfg st d j + txDelta cfg st tx d j := by
+  by_cases hcase : (runTx cfg st tx).1 = "ok" ∧ d = txDb cfg st tx ∧ j = txTarget tx
+  · obtain ⟨hok, hd, hjt⟩ := hcase
+    have hu : Untouched cfg j j := sep_untouched cfg U hs j j hj hj
+    unfold txDelta
+    rw [if_pos ⟨hok, hd, hjt⟩]
+    cases tx with
+    | apply src id typ stake acct pk vrf =>
+      simp only [txTarget, txDb] at hd hjt
+      subst hd hjt
+      rw [C20.stake_accounting_apply cfg st src _ typ stake acct pk vrf hok hu]
+      obtain ⟨st1, hfee, hex, _⟩ := runTx_ok cfg st _ hok
+      have hl := (processFee_live st st1 _ hfee).1
+      simp only [execute] at hex
+      obtain ⟨_, _, heq⟩ := execApply_ok cfg st1 src j typ stake acct pk vrf hex
+      rw [heq] at hex
+      have hnomin := (addMiner_ok cfg st1 _ _ _ _ hex).2.2.1
+      have htyp := addMiner_ok_typ cfg st1 _ _ _ _ hex
+      have hnone := getMiner_none cfg st1 j hnomin
+      have h0 : stakeAt cfg st (dbOfType typ) j = 0 := by
+        apply hinv.clean _ _ hj
+        rw [← getMinerById_congr cfg st st1 hl]
+        rcases htyp with h | h
+        · simp only at h; rw [h]; exact hnone.2
+        · simp only at h; rw [h]; exact hnone.1
+      rw [h0]; simp
+    | add src id delta =>
+      simp only [txTarget, txDb] at hd hjt
+      subst hjt
+      by_cases hdl : delta = 0
+      · subst hdl
+        obtain ⟨st1, hfee, hex, hst⟩ := runTx_ok cfg st _ hok
+        have hl := (processFee_live st st1 _ hfee).1
+        have : (execute cfg st1 (.add src j 0)).2 = st1 := by
+          simp only [execute] at hex ⊢
+          obtain ⟨_, heq⟩ := execAdd_ok cfg st1 src j 0 hex
+          rw [heq]; simp [addStake]
+        rw [hst, this, stakeAt_of_live cfg st st1 hl]; simp
+      · obtain ⟨m, hm, hst⟩ := C20.stake_accounting_add cfg st src j delta hinv.rk hdl hok hu
+        rw [hm] at hd
+        simp only at hd
+        subst hd
+        rw [hst, Nat.mod_eq_of_lt (hside.2.2 _)]
+        push_cast; rfl
+    | refund src id amount =>
+      simp only [txTarget, txDb] at hd hjt
+      subst hjt
+      obtain ⟨m, hm, _, hms, hle, hst⟩ := C20.stake_accounting_refund cfg st src j amount hinv.rk hok hu
+      rw [hm] at hd
+      simp only [hm] at hd ⊢
+      subst hd
+      rw [hst]
+      have : refundMoney m amount ≤ stakeAt cfg st (dbOfType m.typ) j := hms ▸ hle
+      omega
+    | chacc src id na =>
+      simp only [txTarget, txDb] at hd hjt
+      subst hjt
+      obtain ⟨st1, hfee, hex, hst⟩ := runTx_ok cfg st _ hok
+      have hl := (processFee_live st st1 _ hfee).1
+      obtain ⟨hinv1, _⟩ := inv_fee cfg U st st1 _ hinv hfee
+      simp only [execute] at hex hst
+      obtain ⟨m, hm, _, _, _, hap⟩ := execChacc_ok cfg st1 src j na hex
+      obtain ⟨d', _, hbyid, hmid, _, _, hstake, hdb⟩ := getMiner_some cfg st1 j m hinv1.rk hm
+      subst hmid
+      rw [← getMiner_congr cfg st st1 hl, hm] at hd
+      simp only at hd
+      rw [hd, hdb, hst, hap]
+      have hp : getMinerById cfg st1 d' m.id ≠ none := by rw [hbyid]; simp
+      obtain ⟨_, _, hs'⟩ := updateMiner_none_preserves cfg U st1 st1 m { m with account := na } d' hs hj hinv1.clean rfl rfl rfl hdb hp
+      simp only at hs'
+      have hlt := stakeAt_lt cfg st1 d' m.id
+      have e : stakeAt cfg st1 d' m.id = m.stake := hstake.symm
+      rw [hs', Nat.mod_eq_of_lt (by omega), ← e, stakeAt_of_live cfg st st1 hl]; simp
+    | bad k src =>
+      exfalso
+      obtain ⟨st1, _, hex, _⟩ := runTx_ok cfg st _ hok
+      cases k <;> simp [execute] at hex
+  · have hz : txDelta cfg st tx d j = 0 := by unfold txDelta; rw [if_neg hcase]
+    rw [hz, Int.add_zero]
+    by_cases hok : (runTx cfg st tx).1 = "ok"
+    · have hne : ¬ (d = txDb cfg st tx ∧ j = txTarget tx) := fun h => hcase ⟨hok, h⟩
+      have ht : txTarget tx ∈ U := by
+        cases tx with
+        | apply => exact hside.1
+        | add => exact hside.1
+        | refund => exact hside.1
+        | chacc => exact hside
+        | bad k src =>
+          exfalso
+          obtain ⟨st1, _, hex, _⟩ := runTx_ok cfg st _ hok
+          cases k <;> simp [execute] at hex
+      rw [stakeAt_runTx_frame cfg U st tx hs hinv.rk ht d j hj hne]
+    · rw [stakeAt_of_live cfg st _ (runTx_not_ok_live cfg st tx hok)]
+
+/-- Over any history satisfying the side conditions, the stake every registry records for every id of the
+    universe is what it was at the start plus applied + added − refunded. -/
+theorem stake_accounting_run (cfg : Cfg) (U : List Bytes) (st : State) (ops : List Op) (hc : CodecId cfg) (hraw : RawOK cfg)
+    (hsome : CodecSome cfg) (hs : SepU cfg U) (hn : U.Nodup) (hinv : Inv cfg U st) (hside : RunSide cfg U st ops)
+    (d : DbId) (j : Bytes) (hj : j ∈ U) :
+    (stakeAt cfg (run cfg st ops) d j : Int) = stakeAt cfg st d j + ledger cfg st ops d j := by
+  induction ops generalizing st with
+  | nil => simp [run, ledger]
+  | cons o ops ih =>
+    cases o with
+    | tx t =>
+      obtain ⟨hok, hts, hrest⟩ := hside
+      have hi := (runTx_preserves cfg U st t hc hraw hsome hs hn hinv hok hts).1
+      have h1 := stake_accounting_step cfg U st t hs hinv hts d j hj
+      have h2 := ih (runTx cfg st t).2 hi hrest
+      simp only [run, List.foldl_cons, step, ledger] at h2 ⊢
+      rw [h2, h1]; omega
+    | endBlock n =>
+      have hi := (endBlock_preserves cfg U st n hinv).1
+      have h2 := ih (endBlock st n) hi hside
+      simp only [run, List.foldl_cons, step, ledger] at h2 ⊢
+      rw [h2, stakeAt_of_live cfg st _ (endBlock_live st n)]
+
+/-- From an empty registry: record stake = applied + added − refunded. -/
+theorem stake_accounting_from_genesis (cfg : Cfg) (U : List Bytes) (h : Nat) (bal : List (Bytes × Nat)) (ops : List Op)
+    (hc : CodecId cfg) (hraw : RawOK cfg) (hsome : CodecSome cfg) (hs : SepU cfg U) (hn : U.Nodup)
+    (hside : RunSide cfg U { State.empty h with bal := bal } ops) (d : DbId) (j : Bytes) (hj : j ∈ U) :
+    (stakeAt cfg (run cfg { State.empty h with bal := bal } ops) d j : Int)
+      = ledger cfg { State.empty h with bal := bal } ops d j := by
+  rw [stake_accounting_run cfg U _ ops hc hraw hsome hs hn (inv_genesis cfg U h bal) hside d j hj]
+  simp [stakeAt, State.empty, Store.get, u64]
+
+example : ledger toyCfg funded demoOps .val [0x11] = 800 + 7 - 100 ∧
+    stakeAt toyCfg (run toyCfg funded demoOps) .val [0x11] = 707 := by decide
+
 end Rangers.Props.C20B
